@@ -30,9 +30,14 @@ impl Prop for C13 {
                 v.push(case(&[("cmd", cmd.into()), ("cause", cause.to_string()), ("prior", prior.into()), ("seed", rng.next().to_string())]));
             } }
         }
-        for cmd in ["decrypt", "pass-decrypt"] { for late in ["corrupt-chunk1", "corrupt-chunk2", "truncated-chunk2", "trailing-byte"] { for prior in ["absent", "present"] {
+        for cmd in ["decrypt", "pass-decrypt"] { for late in ["corrupt-chunk1", "corrupt-chunk2", "truncated-chunk2", "trailing-byte"] { for prior in ["absent", "present", "present-long"] {
             v.push(case(&[("cmd", cmd.into()), ("cause", late.into()), ("prior", prior.into()), ("seed", rng.next().to_string())]));
         } } }
+        // the output path is a symbolic link to an existing file: a failed command leaves the link and the file it points to alone
+        for (cmd, cause) in [("decrypt", "wrong-password"), ("decrypt", "unknown-name"), ("decrypt", "corrupt-chunk0"), ("encrypt", "unknown-recipient"), ("encrypt", "unset-password"),
+                             ("pass-decrypt", "wrong-password"), ("pass-decrypt", "wrong-magic"), ("pass-encrypt", "unset-password"), ("pass-encrypt", "missing-input")] {
+            v.push(case(&[("cmd", cmd.into()), ("cause", cause.into()), ("prior", "symlink".into()), ("seed", rng.next().to_string())]));
+        }
         v.extend(crate::props::tty::tty_cases(&crate::props::tty::OPS_C13, _tier, seed));
         v
     }
@@ -44,7 +49,7 @@ impl Prop for C13 {
         let (cmd, cause, prior) = (get(c, "cmd"), get(c, "cause"), get(c, "prior"));
         let late = ["corrupt-chunk1", "corrupt-chunk2", "truncated-chunk2", "trailing-byte"].contains(&cause);
         let plain = crate::gen::payload(rng.next(), if late { 65536 * 2 + 100 } else { 50 });
-        let old = b"precious previous contents\n".to_vec();
+        let old = if prior == "present-long" { crate::gen::payload(99, 200_000) } else { b"precious previous contents\n".to_vec() };
         let keym = cmd == "decrypt" || cmd == "encrypt"; let decrypting = cmd.ends_with("decrypt");
         let pw = "pass123";
         let mut kr = keyring(&[(&fx.alice, true), (&fx.bob, true), (&fx.carol, false)]).into_bytes();
@@ -83,8 +88,23 @@ impl Prop for C13 {
         if have_input && cmd != "key-generate" { files.push(("in.bin".into(), input.clone())); }
         if have_kr && keym { files.push(("kr.txt".into(), kr.clone())); }
         let out_name = if cause == "same-file" { "in.bin" } else { "out.bin" };
-        if prior == "present" && cause != "same-file" { files.push(("out.bin".into(), old.clone())); }
+        if prior.starts_with("present") && cause != "same-file" { files.push(("out.bin".into(), old.clone())); }
+        if prior == "symlink" { files.push(("precious.txt".into(), old.clone())); }
         let world = World { files: files.clone(), env, stdin };
+        if prior == "symlink" {
+            // no model of symbolic links: oracle only
+            let obs = run_kestrel_wired(&world, &args, &Wiring { stdout: StdoutMode::Pipe, links: vec![("out.bin".into(), "precious.txt".into())] });
+            o.validated += 1;
+            let still_link = obs.file("out.bin@symlink").is_some();
+            let target = obs.file("precious.txt").cloned();
+            o.impl_obs = format!("exit={:?} out.bin is {} precious.txt={}B", obs.exit, if still_link { "still a symlink" } else if obs.file("out.bin").is_some() { "a regular file" } else { "gone" }, target.as_ref().map(|b| b.len()).unwrap_or(0));
+            o.model_obs = "(oracle only) exit=1, link and target unchanged".into();
+            o.tags.push(format!("{} {} symlink", cmd, cause)); o.nontrivial = Some(format!("{}/{}/{}", cmd, cause, prior));
+            let label = format!("{} with {} (output path is a symbolic link to an existing file)", cmd, cause);
+            if obs.exit != Some(1) { o.oracle_fail = Some(("failure-exits-1".into(), format!("{}: exit {:?}", label, obs.exit))); }
+            else if !still_link || target.as_ref() != Some(&old) || obs.file("out.bin").cloned() != Some(old.clone()) { o.oracle_fail = Some(("output-path-untouched".into(), format!("{}: after the failed command {}", label, o.impl_obs))); }
+            return o;
+        }
         let obs = run_kestrel(&world, &args);
         let mo = model_cli(m, &world, &args, &rng.bytes(32), &rng.bytes(32));
         o.validated += 1;
